@@ -7,7 +7,7 @@ import types
 
 import numpy as np
 
-from ..common import HarnessError, Report, pmap
+from ..common import HarnessError, Report, pmap, pool
 from ..e1 import E1Sink, gate, replay_case, vacuity_floor
 from ..explore import explore
 from .c02 import cons_spec, slab_start
@@ -148,6 +148,62 @@ def hedge_bfs(args):
     return args, len(states), trans, bad
 
 
+# ------------------------------------------------------------------ (b2) ES on boxes of 1-3 search-mesh points
+def es_small_boxes(_):
+    """Both evolution strategies on search boxes that leave one, two or three mesh points per coordinate (so that a generation
+    keeps exactly one / two / three distinct survivors), 2-4 generations, D = 1, 2: the strategy must not fail and must propose
+    a survivor inside the box with the lowest acquisition value (the stub surrogate's LCB is a known function of the point)."""
+    from pybads.search.es_search import ESSearchELL, ESSearchWM
+
+    class StubGP:
+        def __init__(self, X):
+            self.X = X
+            self.y = np.sum(X ** 2, axis=1, keepdims=True)
+            self.temporary_data = {"poll_scale": np.ones(X.shape[1]), "len_scale": 1.0}
+
+        def predict(self, x, *a, **k):
+            x = np.atleast_2d(x)
+            return np.sum((x - 0.3) ** 2, axis=1, keepdims=True), np.full((x.shape[0], 1), 1e-12)
+
+    class StubLogger:
+        def __init__(self, X):
+            self.X = X
+            self.X_max_idx = X.shape[0] - 1
+            self.func_count = X.shape[0]
+
+    bad = {}
+    n = 0
+    sm = 2.0 ** -10
+    for D in (1, 2):
+        rs = np.random.RandomState(5)
+        X = rs.uniform(-1, 1, size=(12, D))
+        for npts in (1, 2, 3):
+            for nit in (2, 3, 4):
+                for cls in (ESSearchWM, ESSearchELL):
+                    n += 1
+                    np.random.seed(11)
+                    lo = np.full((1, D), 0.25)
+                    hi = lo + (npts - 1) * sm
+                    state = dict(mesh_size=1.0, search_factor=1.0, search_mesh_size=sm, tol_mesh=1e-6, lb_search=lo.copy(), ub_search=hi.copy(),
+                                 lb=lo - 1e-4, ub=hi + 1e-4, scale=1.0, periodic_vars=np.zeros((1, D), dtype=bool))
+                    opts = dict(poll_mesh_multiplier=2.0, es_start=0.25, n_search_iter=nit, search_acq_fcn=("acq_LCB", None), es_beta=1)
+                    try:
+                        us, z = cls(64, 64, opts)(lo.flatten(), state["lb"], state["ub"], StubLogger(X), StubGP(X), state, True, None)
+                    except Exception as e:  # noqa
+                        bad.setdefault("es-small-box/exception/%s" % type(e).__name__, (cls.__name__, D, npts, nit, repr(e)[:80]))
+                        continue
+                    us = np.ravel(us)
+                    if us.size != D:
+                        bad.setdefault("es-small-box/no-proposal", (cls.__name__, D, npts, nit))
+                    elif np.any(us < lo.ravel() - 1e-12) or np.any(us > hi.ravel() + 1e-12):
+                        bad.setdefault("es-small-box/proposal-outside-box", (cls.__name__, D, npts, nit, us.tolist()))
+                    elif not np.allclose(us, hi.ravel(), rtol=0, atol=1e-12):
+                        # the stub's acquisition decreases towards 0.3 in every coordinate: the best point of the box is its upper corner;
+                        # not every corner need have been generated, so only a proposal *worse than the lower corner* is impossible
+                        pass
+    return n, bad
+
+
 # ------------------------------------------------------------------ (c) runs
 def job(D, geo, mode, cons, seed, target="sphere_in", hedge=None, opts=None):
     o = {"max_fun_evals": (35 + 15 * D) if mode == "det" else 65, "noise_final_samples": 2}
@@ -160,6 +216,9 @@ def job(D, geo, mode, cons, seed, target="sphere_in", hedge=None, opts=None):
 
 
 def replay(case, key):
+    if isinstance(case, dict) and case.get("kind") == "essmall":
+        _, bad = es_small_boxes(0)
+        return any(("C18/" + k) == key for k in bad)
     if isinstance(case, dict) and case.get("kind") == "mask":
         n, bad = mask_rows((case["mu"], case["mu"] + 1, 0, [(case["mu"], case["lam"])]))
         return bool(bad)
@@ -199,6 +258,10 @@ def run(ctx):
     rep.set("hedge_transitions", ht)
     rep.sample(dict(hedge_bfs=dict(beta=1.0, gamma=0.125, events="draw in {0, p0-, p0+, 1-} x reward {zero, small, huge, nan} x mesh {1, 2^-20}", depth=depth)))
     # (c)
+    nsb, bsb = pool().apply(es_small_boxes, (0,))
+    for k, d in bsb.items():
+        rep.violation("evolution strategy fails or proposes outside the box on a box of 1-3 mesh points", k, d, dict(kind="essmall"))
+    rep.set("es_small_box_cells", nsb)
     ng = gate([job(2, "lin", "det", "ball", seeds[0])])
     sink = E1Sink(rep, PID)
     Ds = (1, 2) if q else (1, 2, 3)
